@@ -11,7 +11,7 @@ from vp.results import OUTCOMES
 PROPERTY = "C02"
 RULE = ("Generated test programs with addCleanup at every position (before/after the setUp upcall, test method, "
         "tearDown, inside other cleanups to depth 3, with args/kwargs), patch() of existing / None-valued / missing "
-        "attributes on two scratch objects (several patches of one attribute), useFixture of fixtures with optional "
+        "attributes on three scratch objects (most patches and reads of one program go to one attribute, so that the same attribute is patched several times and read in between, also by cleanups), useFixture of fixtures with optional "
         "failing _setUp / failing cleanup / one nested fixture, and all fault kinds incl. non-Exception ones; the same "
         "TestCase instance is run 2-3 times. Oracle: the execution log written by the generated code equals the "
         "reference interpreter's log in every run; scratch objects equal their pre-test state after every run; every "
